@@ -1145,7 +1145,7 @@ theorem TInv.step_setst {cfg : Cfg} {s : S} {t : Thread} {q : Nat} {rest : List 
 
 
 theorem mem_endProg (cfg : Cfg) (i : Instr) (hi : i ∈ endProg cfg) :
-    (∃ q, i = .touch q) ∨ (∃ q, i = .read q) ∨ (∃ q, i = .del q) ∨ i = .pop := by
+    (∃ q, i = .touch q) ∨ (∃ q, i = .read q) ∨ (∃ q, i = .del q) ∨ i = .dropPop := by
   simp only [endProg, List.mem_append, List.mem_flatMap, List.mem_cons] at hi
   rcases hi with ⟨q0, _, rfl | h⟩ | h
   · exact Or.inl ⟨q0, rfl⟩
